@@ -159,6 +159,7 @@ type mwConn struct {
 	lis      *countingListener
 	handed   bool // passed to addNewMux
 	lateAdd  bool // ... after the lifetime had ended
+	dieBeforeAdd bool // the peer answers the first ping and hangs up before addNewMux looks at the session
 	muxID    string
 	harnShut bool // the harness closed / abandoned its end itself
 	sawEOF   atomic.Bool
@@ -232,6 +233,18 @@ func newMuxWorld(t *testing.T, n int, role string, tcp, bubble, withGRPC bool) *
 		wrapped := func(s *yamux.Session, c net.Conn) {
 			m := w.lookup(c)
 			late := lt.Err() != nil
+			if m != nil && m.dieBeforeAdd && m.peer != nil {
+				// the narrow window between the provider's successful Ping and AddConnection: the peer is gone already
+				m.harnShut = true
+				if m.srv != nil {
+					m.srv.Stop()
+				}
+				_ = m.peer.Close()
+				select { // the provider's session notices (EOF in its receive loop) before we hand it over
+				case <-s.CloseChan():
+				case <-time.After(10 * time.Second):
+				}
+			}
 			before := w.mgr.GetMuxConnections()
 			cb(s, c)
 			after := w.mgr.GetMuxConnections()
@@ -497,6 +510,23 @@ func (w *muxWorld) peer(kind string) {
 		before := len(w.regIDs())
 		w.startPeer(m)
 		w.settle(func() bool { return w.cancelled || len(w.regIDs()) > before })
+	case "ping-die": // answers the ping, then hangs up before the provider has registered the session
+		m.dieBeforeAdd = true
+		w.startPeer(m)
+		w.settle(func() bool {
+			if w.cancelled {
+				return true
+			}
+			if !m.handed {
+				return false
+			}
+			for _, id := range w.regIDs() {
+				if id == m.muxID {
+					return false
+				}
+			}
+			return true
+		})
 	case "silent": // never reads: the provider's ping write times out (10 s); 41 s also lets a keep-alive notice
 		w.sleep(41 * time.Second)
 		w.settle(nil)
@@ -671,7 +701,7 @@ func (w *muxWorld) apply(op string) bool {
 	case len(f) == 2 && f[0] == "peer":
 		switch f[1] {
 		case "ping-ok", "eof", "garbage":
-		case "silent", "mute", "slow":
+		case "silent", "mute", "slow", "ping-die":
 			if w.tcp {
 				return false
 			}
